@@ -446,6 +446,12 @@ def _build(spec):
 
         def call(seed, ns=t['ns']):
             return model.sample(times.copy(), n_samples=ns, individual=t['individual'], seed=seed)
+        if entry == 'post' and t['individual'] is not None:
+            # the same posterior with the individuals labelled differently: the label is no part of the seed
+            ds2 = dict(t['datasets'][0], ids=['relabelled ' + str(i_) for i_ in t['datasets'][0]['ids']])
+            model2 = chi.PosteriorPredictiveModel(pm, _dataset(ds2, names))
+            new_label = 'relabelled ' + str(t['individual'])
+            meta['relabel_call'] = lambda seed: model2.sample(times.copy(), n_samples=t['ns'], individual=new_label, seed=seed)
 
         def noise(n, seed):
             g = grid(n)
@@ -820,6 +826,27 @@ def check(case):
                 n_distinct = int(np.unique(big[:, c]).size)
                 case.true(n_distinct == 8000, 'dimension %d: %d of 8000 individuals sampled in one call share their value '
                           'with another individual (continuous distribution)' % (c, 8000 - n_distinct), kind='identical')
+
+    if ran and meta.get('relabel_call') is not None:
+        with case.clause('label_independent:' + entry):
+            a = canon(call_int(seeds['A'])) if form != 'int' else canon(call(seeds['A']))
+            b = canon(meta['relabel_call'](seeds['A']))
+            case.true(same(a, b), 'seed %d: the samples for an individual change when the individuals of the dataset are '
+                      'labelled differently (%s)' % (seeds['A'], _describe(a, b)), kind='differs')
+
+    # ---- seeds beyond 32 bits (time.time_ns(), 64-bit hashes): s and s + 2^32 are different seeds
+    if ran and meta['random'] and entry in ('em', 'pop') and form == 'int':
+        with case.clause('wide_seed:' + entry):
+            s0 = int(seeds['A'])
+            a, b = canon(dcall(s0 + 2 ** 32)), canon(dcall(s0 + 2 ** 32))
+            case.true(same(a, b), 'seed %d: two calls give different results (%s)' % (s0 + 2 ** 32, _describe(a, b)),
+                      kind='differs')
+            base_ = canon(dcall(s0))
+            if same(a, base_):
+                c, d_ = canon(dcall(s0 + 1)), canon(dcall(s0 + 1 + 2 ** 32))
+                if same(c, d_):
+                    case.fail('identical', 'seeds %d and %d (and %d, %d) give identical results' % (
+                        s0, s0 + 2 ** 32, s0 + 1, s0 + 1 + 2 ** 32))
 
     # ---- calls without a seed: successive calls draw on, they do not replay one another; the caller's own draws from
     # the global generator afterwards are not the numbers the call has just used
